@@ -259,7 +259,14 @@ class Scalar(Generic[TScalar_co]):
 
     @classmethod
     def _unpickle(cls, args: tuple[Any, ...], kwargs: dict[str, Any]) -> Self:
-        return cls(*args, **kwargs)
+        # The constructor adds an empty units entry when there is none. A copy of an object whose
+        # entry was removed has none either (and a shallow copy shares the original's dictionary).
+        properties = kwargs.get("extended_properties")
+        absent = properties is not None and UNIT_DESCRIPTION not in properties
+        self = cls(*args, **kwargs)
+        if absent:
+            del self._extended_properties[UNIT_DESCRIPTION]
+        return self
 
     def __repr__(self) -> str:
         """Return repr(self)."""
